@@ -107,3 +107,18 @@ var flaggedClasses = []string{
 	"MSG_TYPE_ENTITY_COMPONENT_UPDATE_BROADCAST",
 	"MSG_TYPE_ENTITY_COMPONENT_DELETE_BROADCAST",
 }
+
+// kindPrimitive: what answering a request of this kind with success means on the server — the model
+// operation the accepting path must have performed (rule B9). Replicated changes are covered by C1 /
+// B8 through the mutator table; this table adds the kinds whose operation is not replicated.
+var kindPrimitive = map[string][]string{
+	"MSG_TYPE_ENTITY_COMPONENT_TYPE_ADD_REQUEST":         {"models.(*EntityComponentStore).AddType"},
+	"MSG_TYPE_ENTITY_COMPONENT_TYPE_GET_NAME_REQUEST":    {"models.(*EntityComponentStore).GetTypeName"},
+	"MSG_TYPE_ENTITY_COMPONENT_TYPE_GET_ID_REQUEST":      {"models.(*EntityComponentStore).GetTypeID"},
+	"MSG_TYPE_ENTITY_COMPONENT_LIST_REQUEST":             {"models.(*EntityComponentStore).List"},
+	"MSG_TYPE_ENTITY_COMPONENT_TYPE_SUBSCRIBE_REQUEST":   {"models.(*EntityComponentStore).Subscribe"},
+	"MSG_TYPE_ENTITY_COMPONENT_TYPE_UNSUBSCRIBE_REQUEST": {"models.(*EntityComponentStore).Unsubscribe"},
+	"MSG_TYPE_ENTITY_ADD_REQUEST":                        {"models.(*Session).AddEntity", "models.(*Participant).AddEntity"},
+	"MSG_TYPE_ENTITY_DELETE_REQUEST":                     {"models.(*Session).RemoveEntity", "models.(*Participant).RemoveEntity", "models.(*EntityComponentStore).DeleteByEntityID"},
+	"MSG_TYPE_PARTICIPANT_JOIN_REQUEST":                  {"models.(*Session).AddParticipant", "models.(*Session).HandleFrame"},
+}
